@@ -3,9 +3,13 @@ CONSTANTS
   Conns = {"c1", "c2", "c3"}
   Mods = {"m1", "m2"}
   Used = {"debug", "comlog", "info", "warning", "error", "off"}
+  ComMods = {"m1"}
+  Configs <- CfgAll
+  MaxDay = 4
 CONSTRAINT Track
 INVARIANT TypeOK
 INVARIANT DeadSilent
 INVARIANT ExactRouting
+INVARIANT Done
 POSTCONDITION Verdicts
 CHECK_DEADLOCK FALSE
